@@ -251,6 +251,47 @@ def _small_const(op):
     return int(m.group(1)) if m else None
 
 
+_REL_SIGNS = {'size<max': {-1}, 'size<=max': {-1, 0}, 'size>max': {1}, 'size>=max': {0, 1}, 'size==max': {0}, 'size!=max': {-1, 1}}
+
+
+def contradicted_arms(an, r, b):
+    """{(switch bb, target bb)}: arms that cannot be taken because a dominating arm of an earlier test of size against max_size
+    decided the opposite and neither field is written in between (a shared helper re-testing `size <= max_size` inside the
+    surplus branch of its caller).  Cached on the analysis object."""
+    if getattr(an, '_contradicted', None) is not None:
+        return an._contradicted
+    out = set()
+    sw = []
+    for blk in b.blocks:
+        if blk.term.kind == 'switch' and not blk.cleanup:
+            for lab, tgt in blk.term.switch_arms():
+                try:
+                    rel = cmp_relation(an, r, blk, lab)
+                except Exception:
+                    rel = None
+                if rel and rel[0] in _REL_SIGNS:
+                    sw.append((blk.idx, lab, tgt, rel[0], rel[1] if len(rel) > 1 and isinstance(rel[1], int) else blk.idx))
+    if len({x[0] for x in sw}) >= 2:
+        writes = {bb for bb, i, s_ in r.field_writes(b, r.SLOTS, r.SIZE)} | {bb for bb, i, s_ in r.field_writes(b, r.SLOTS, r.MAX)}
+        for s1, l1, t1, r1, c1 in sw:
+            others = [x[2] for x in sw if x[0] == s1 and x[2] != t1]
+            only1 = an.reach([t1], ('normal',), avoid=[s1]) - (an.reach(others, ('normal',), avoid=[s1]) if others else set())
+            for s2, l2, t2, r2, c2 in sw:
+                # the second comparison is evaluated under the first arm (its value may be tested later, after a write)
+                if s2 == s1 or s2 not in only1 or c2 not in only1:
+                    continue
+                if _REL_SIGNS[r1] & _REL_SIGNS[r2]:
+                    continue
+                # no write of either field between the first decision and the second comparison (a write in the block of one of
+                # the comparisons itself is not ordered here: not decided -> not contradicted)
+                between = any(w in only1 and (c2 in an.reach_after(w, ('normal',))) for w in writes)
+                if between or c2 in writes or c1 in writes or s1 in writes:
+                    continue
+                out.add((s2, t2))
+    an._contradicted = out
+    return out
+
+
 def cmp_relation(an, r, switch_blk, arm_label, _depth=0):
     """normalised relation between SIZE and MAX that holds on `arm_label` of a bool switch.
     returns one of 'size<=max','size<max','size>max','size>=max','size==max','size!=max' or None"""
